@@ -1,6 +1,8 @@
 """C02 error rate: forwarding, mode table, equal-cost shortcut (G16), MER loss (G16/G8), G17."""
 from __future__ import annotations
 
+from sa.astutil import under_flag as _uflag
+
 import ast
 
 from rules import enum as R_enum
@@ -48,7 +50,7 @@ def run(ctx: Ctx):
     okview = False
     for sh in shapes:
         names = [u(t) for t in sh.targets[0].elts]
-        bf = any(u(t) == "batch_first" and pol for t, pol in guards_of(pm, sh))
+        bf = _uflag(guards_of(pm, sh), "batch_first", True)
         bs = (names[0], names[1]) if bf else (names[1], names[2])
         okview = okview or list(bs) == view_args
     means = [c for c in own_calls(f.node) if isinstance(c.func, ast.Attribute) and c.func.attr == "mean" and (c.args or c.keywords)
@@ -68,7 +70,7 @@ def run(ctx: Ctx):
            sample=dict(view=view_args, mean=[u(c) for c in means], softmax=[u(c) for c in sms]))
     sub = [n for n in own_nodes(f.node) if isinstance(n, ast.BinOp) and isinstance(n.op, ast.Sub) and means and any(x is means[0] for x in ast.walk(n.right))
            and from_er(n.left)]
-    col.ob("G16", "S4", f"{where}::mean-subtracted-iff-sub_avg", len(sub) == 1 and any(u(t) == "sub_avg" and pol for t, pol in guards_of(pm, sub[0])),
+    col.ob("G16", "S4", f"{where}::mean-subtracted-iff-sub_avg", len(sub) == 1 and _uflag(guards_of(pm, sub[0]), "sub_avg", True),
            "the average error rate is not subtracted exactly when sub_avg is set", rel, f.line)
 
     def is_softmax(e):
